@@ -209,11 +209,15 @@ func genPatches(r *hx.Rng, n int, ids *idPool) []interface{} {
 			}
 			out = append(out, patchAddServices(ss...))
 		case 4:
-			out = append(out, map[string]interface{}{"action": "remove-services", "ids": []interface{}{ids.svc(r)}})
+			// one to three ids (present / absent / repeated, often neighbours in the document)
+			rm := distinctOf(1+r.Intn(3), func() string { return ids.svc(r) })
+			out = append(out, map[string]interface{}{"action": "remove-services", "ids": rm})
 		case 5:
-			out = append(out, map[string]interface{}{"action": "add-also-known-as", "uris": []interface{}{ids.uri(r)}})
+			us := distinctOf(1+r.Intn(3), func() string { return ids.uri(r) })
+			out = append(out, map[string]interface{}{"action": "add-also-known-as", "uris": us})
 		case 6:
-			out = append(out, map[string]interface{}{"action": "remove-also-known-as", "uris": []interface{}{ids.uri(r)}})
+			us := distinctOf(1+r.Intn(3), func() string { return ids.uri(r) })
+			out = append(out, map[string]interface{}{"action": "remove-also-known-as", "uris": us})
 		default:
 			out = append(out, patchJSON(map[string]interface{}{"op": "add", "path": "/" + hx.Pick(r, []string{"m1", "m2", "note"}), "value": fmt.Sprint("v", r.Intn(100))}))
 		}
@@ -251,4 +255,19 @@ func genOrigin(r *hx.Rng) interface{} {
 		return float64(r.Intn(1000))
 	}
 	return "ipfs://" + genID(r, "")
+}
+
+// distinctOf draws up to n values and keeps the distinct ones in drawing order (lists inside one patch must not repeat a
+// value: the validators refuse that).
+func distinctOf(n int, draw func() string) []interface{} {
+	var out []interface{}
+	seen := map[string]bool{}
+	for k := 0; k < n; k++ {
+		v := draw()
+		if !seen[v] {
+			seen[v] = true
+			out = append(out, v)
+		}
+	}
+	return out
 }
